@@ -48,7 +48,7 @@ type params struct {
 }
 
 func (*prop) Cases(seed int64, tier string) []core.Case {
-	loads, pk, dc := 8, 5, 30
+	loads, pk, dc := 24, 5, 30
 	tagN := 6000
 	if tier == "thorough" {
 		loads, pk, dc = 64, 10, 60
